@@ -218,40 +218,39 @@ func (s *stubSession) Expunge(w *imapserver.ExpungeWriter, uids *imap.UIDSet) er
 }
 
 func (s *stubSession) Search(kind imapserver.NumKind, criteria *imap.SearchCriteria, options *imap.SearchOptions) (*imap.SearchData, error) {
-	if _, err := s.rec("Search", kind.String(), searchArgs(criteria)); err != nil {
+	if _, err := s.rec("Search", append([]string{kind.String()}, searchArgs(criteria)...)...); err != nil {
 		return nil, err
 	}
 	return &imap.SearchData{All: imap.SeqSetNum(1, 2), Count: 2, Min: 1, Max: 2}, nil
 }
 
-// searchArgs flattens every string that occurs in the criteria (for the poison oracle).
-func searchArgs(c *imap.SearchCriteria) string {
+// searchArgs lists every string that occurs in the criteria, one entry per string.
+func searchArgs(c *imap.SearchCriteria) []string {
 	if c == nil {
-		return ""
+		return nil
 	}
-	var sb strings.Builder
+	var out []string
 	for _, h := range c.Header {
-		sb.WriteString(h.Key + "=" + h.Value + ";")
+		out = append(out, h.Key, h.Value)
 	}
-	for _, x := range c.Body {
-		sb.WriteString("body=" + x + ";")
-	}
-	for _, x := range c.Text {
-		sb.WriteString("text=" + x + ";")
-	}
+	out = append(out, c.Body...)
+	out = append(out, c.Text...)
 	for _, f := range c.Flag {
-		sb.WriteString("flag=" + string(f) + ";")
+		out = append(out, string(f))
 	}
 	for _, f := range c.NotFlag {
-		sb.WriteString("notflag=" + string(f) + ";")
+		out = append(out, string(f))
 	}
 	for _, n := range c.Not {
-		sb.WriteString("not(" + searchArgs(&n) + ")")
+		n := n
+		out = append(out, searchArgs(&n)...)
 	}
 	for _, o := range c.Or {
-		sb.WriteString("or(" + searchArgs(&o[0]) + "|" + searchArgs(&o[1]) + ")")
+		o := o
+		out = append(out, searchArgs(&o[0])...)
+		out = append(out, searchArgs(&o[1])...)
 	}
-	return sb.String()
+	return out
 }
 
 func numSetString(ns imap.NumSet) string {
